@@ -347,6 +347,28 @@ PROPS["C14"] = {
     ],
 }
 
+PROPS["C18"] = {
+    "level": "exploration",
+    "rule": "cases are scenarios of 1-6 logical requests from the /api/loc/* family (facts add/get/rem/search/take/replace/query, "
+            "rules add/rem/list/disable/enable/enabled, events ingest, admin size/clear/create, parents get/set, an unknown URI, a "
+            "POST without body) with generated arguments (ids and values containing quotes, backslashes, &, =, %, +, spaces, "
+            "non-ASCII, slashes, tabs and newlines) and a 1-in-4 error class per request (location missing, structured parameter "
+            "ill-typed, required parameter missing, structured parameter empty). The scenario is run once as direct sys.System "
+            "calls and once per rendering -- query string, form body, JSON body, /api/json envelope, YAML body, one "
+            "/api/sys/util/batch -- each on a fresh engine through HTTPService.ServeHTTP, with prefix '/api', none, or a version "
+            "prefix. Oracle: status 200 iff the direct call succeeded (else 400 / an error entry in the batch), the body parses as "
+            "JSON and, normalised (generated ids, ordering), equals the direct result. Non-trivial = an argument needs escaping, or "
+            ">= 3 requests succeeded in sequence. Distinct = distinct canonical JSON.",
+    "assumptions": COMMON_ASSUMPTIONS + [
+        "the handler is called in-process (httptest), not over a socket",
+        "responses are compared after normalising generated ids, list order and timing fields",
+    ],
+    "parts": [
+        {"name": "encodings", "mode": "plain", "test": "TestC18",
+         "quick": {"checks": 1200, "shards": 4}, "thorough": {"checks": 12000, "shards": 16}},
+    ],
+}
+
 # Properties deliberately not claimed (reason shown in MANIFEST.not_applicable).
 NOT_APPLICABLE = {}
 
@@ -427,6 +449,11 @@ TEXT = {
         "technique": _PBT + "generated scripts from five families x placements x timeout sources, with generator-known values (round-trip) and real-time containment bounds",
         "level_text": "Generated exploration of script families in every placement and timeout configuration; hangs are detected by an in-test deadline and by the runner. Not a proof.",
         "level_note": "Trusted: wall clock with a generous hard bound; the template families' expected values.",
+    },
+    "C18": {
+        "technique": _PBT + "generated request scenarios rendered in six encodings x URI prefixes, differential against direct System calls on fresh engines; malformed-request classes must map to HTTP 400",
+        "level_text": "Generated exploration of encodings, escaping and error classes; every response is parsed and compared with the direct call. Not a proof.",
+        "level_note": "Trusted: the per-operation normalisers in props/c18_test.go; yaml.v2 to render YAML bodies.",
     },
     "C05": {
         "technique": _PBT + "generated (pattern, data, bindings) vs independent brute-force matcher; substitution round-trip; metamorphic typed variants",
